@@ -162,6 +162,7 @@ def cap_scenarios(it):
     mp2 = ('mp', I('mp_afi2', 0, 65535), I('mp_safi2', 0, 255))
     ap = ('addpath', [(1, 1, it.p.concretize(I('ap_sr', 1, 3).t, what='add-path send/receive'))])
     ap2 = ('addpath', [(1, 1, 3), (2, 1, 1)])
+    ap_b = ('addpath', [(2, 1, 2)])
     enh = ('enh', [(I('enh_afi', 0, 65535), I('enh_safi', 0, 65535), I('enh_nh', 0, 65535))])
     llgr = ('llgr', [(I('ll_afi', 0, 65535), I('ll_safi', 0, 255), I('ll_fl', 0, 255), I('ll_t', 0, 2 ** 24 - 1))])
     unk_code = I('unk_code', 0, 255)
@@ -180,6 +181,8 @@ def cap_scenarios(it):
         [[mp1, mp2], [as4, ap]],                              # mixed packaging
         [[unk, ('rr',)], [llgr]],
         [[]],                                                 # an empty capabilities parameter
+        [[ap], [mp1], [ap_b]],                                # ADD-PATH as one capability per address family (RFC 7911 allows it)
+        [[ap_b, ap]],                                         # ... or as two TLVs inside one parameter
     ]
     k = it.p.choose(len(scen), 'cap-scenario')
     return scen[k]
